@@ -271,6 +271,17 @@ def _g_rows(ck: Checker, name: str, which: str) -> None:
         ext = [c for c in attr_calls(func, "extend") if unparse(c.func.value) == "unsafe"]  # type: ignore[attr-defined]
         ck.need(len(ext) == 1, "unsafe objectives collected at one site")
         ck.guard("minimize: unsafe = objectives whose tuple may unify", func, ext[0], "potentially_unifying_sequence(terms, term_tuple)", "")
+        lp = enclosing_loop(func, ext[0])
+        ck.need(lp is not None and isinstance(lp.target, ast.Tuple), "loop over (tuple, objectives)")
+        objs = unparse(lp.target.elts[1])  # type: ignore[union-attr]
+        comp = unparse(ext[0].args[0]).replace(" ", "")
+        ck.add("minimize: only the statement itself is exempt from the uniqueness test", comp in (f"[xforxin{objs}ifx!={stm}]", f"[xforxin{objs}if{stm}!=x]"), func, ext[0], f"collected: `{comp}`",
+               "another objective with the syntactically identical tuple sits under the same key: skipping the whole entry lets a duplicate tuple be counted twice after the rewrite")
+        ck.add("minimize: every objective of the program is compared", unparse(lp.iter) == "minimizes.items()", func, lp, f"loop over `{unparse(lp.iter)}`", "")
+        gate = parent(func, enclosing_stmt(func, ext[0]))
+        keys = it.texts(gate, gate.test) if isinstance(gate, ast.If) else set()  # type: ignore[arg-type]
+        okk, n = every_iteration_reaches(ck, func, lp, ext[0], Pins.of(facts={k: True for k in keys}))
+        ck.add("minimize: every potentially unifying objective is collected", okk and n > 0, func, ext[0], f"under a positive unification test every iteration collects: {okk}", "")
         tt = single_def(func, "term_tuple")
         ck.add("minimize: compared tuple = (weight, priority, *terms)", tt is not None and unparse(tt).replace(" ", "").replace(",)", ")") == f"({stm}.weight,{stm}.priority,*{stm}.terms)", func, site, f"term_tuple=`{unparse(tt) if tt is not None else None}`", "")
     else:
